@@ -607,6 +607,27 @@ impl Deps {
     /// node u outside L that transitively depends (same-tick dependencies) on a node inside L
     /// (or inside a loop nested in L), i.e. root -> L -> root -> L and nested variants.
     pub fn reenters_own_loop(&self, flat: &Snap) -> bool {
+        self.reenters_own_loop_with(flat, false)
+    }
+
+    /// `atomic_loops`: additionally treat every loop as one unit (each node of a loop depends on
+    /// every other node of that loop, delays inside notwithstanding) — the two-loop variant
+    /// L1 -> root -> L2 -> root -> L1 where the dependency is carried across a `defer_tick` in L2.
+    pub fn reenters_own_loop_with(&self, flat: &Snap, atomic_loops: bool) -> bool {
+        let mut deps = self.deps.clone();
+        if atomic_loops {
+            for &m in flat.loops.keys() {
+                let members: Vec<u64> =
+                    flat.nodes.iter().filter(|(_, n)| flat.loop_within(n.loop_, m)).map(|(&id, _)| id).collect();
+                for &a in &members {
+                    for &b in &members {
+                        if a != b {
+                            deps.push((a, b));
+                        }
+                    }
+                }
+            }
+        }
         for e in &flat.edges {
             if e.ddelay.is_some() {
                 continue;
@@ -620,7 +641,7 @@ impl Deps {
             let mut seen: BTreeSet<u64> = BTreeSet::new();
             let mut stack = vec![e.src];
             while let Some(x) = stack.pop() {
-                for &(a, b) in &self.deps {
+                for &(a, b) in &deps {
                     if b == x && seen.insert(a) {
                         stack.push(a);
                     }
